@@ -770,7 +770,8 @@ type vtimer struct {
 	ch       chan time.Time // registered cap-1 channel, may be nil for AfterFunc/Sleep
 	fn       func()
 	sleeper  *G
-	conn     *Conn // write deadline of a connection
+	conn     *Conn // write (read: read) deadline of a connection
+	read     bool
 }
 
 var epoch = time.Date(2026, 1, 1, 0, 0, 0, 0, time.UTC)
@@ -959,7 +960,7 @@ func (s *Sched) transitionsOf(g *G) []trans {
 	case opTimerWait:
 		return nil // completed by the timer firing
 	case opRead:
-		if o.conn.closed || len(o.conn.in) > 0 || o.conn.peerClosed {
+		if o.conn.closed || len(o.conn.in) > 0 || o.conn.peerClosed || o.conn.rexpired {
 			return one
 		}
 	case opSend:
@@ -1168,6 +1169,8 @@ func (s *Sched) perform(t trans) []*G {
 		switch {
 		case c.closed:
 			o.rerr = errClosedConn
+		case c.rexpired:
+			o.rerr = timeoutError{}
 		case len(c.in) > 0:
 			o.rn = copy(o.buf, c.in)
 			c.in = c.in[o.rn:]
@@ -1366,8 +1369,12 @@ func (s *Sched) fire(t *vtimer) []*G {
 		return []*G{t.sleeper}
 	}
 	if t.conn != nil {
-		// the write deadline of a connection has passed: a blocked Write becomes enabled (and fails)
-		t.conn.wexpired = true
+		// the deadline of a connection has passed: a blocked Write / Read becomes enabled (and fails)
+		if t.read {
+			t.conn.rexpired = true
+		} else {
+			t.conn.wexpired = true
+		}
 		t.conn.nops++
 		return nil
 	}
